@@ -290,7 +290,7 @@ class TypedNode(Node):
                 topnodes.reverse()
             new_node = None
             for n in topnodes:
-                new_node = self.add_child(n, before=before, deep=deep)
+                new_node = self.add_child(n, kind=kind, before=before, deep=deep)
             # Return the copy that was created last (None if `child` is empty)
             return new_node  # type: ignore
 
